@@ -303,6 +303,10 @@ int never_emit(never * nev, int * stack_level, module * module_value, func_list_
 int module_decl_emit(module_decl * value, int * stack_level, module * module_value, func_list_weak * list_weak, int * result);
 int main_emit(module_decl * module_modules, module_decl * module_main, module * module_value);
 
+#ifdef NEVER_VERIF
+extern void (*never_verif_func_hook)(unsigned int addr, unsigned int params_count);
+#endif
+
 #endif /* __EMIT_H__ */
 
 
